@@ -52,7 +52,15 @@ MANIFEST = {
             "ordinary float32 number (|b| >~ 1.8e19 or <~ 1e-19). The oracle reports these with the stable keys "
             "float-range:<helper>:<class> (12 fixed, seed-independent probes; listed as known findings); complex_multiplication / "
             "complex_dot_product / complex_mm / expand / reduce show no such deviation. Inside the range where no intermediate leaves "
-            "float32 every helper must agree with exact complex arithmetic (key native-mismatch:<helper> otherwise). Observation "
+            "float32 every helper must agree with exact complex arithmetic (key native-mismatch:<helper> otherwise); this is now also "
+            "checked BIT-EXACTLY on mixed-magnitude probes (entries m*2^e, m in -3..3, e in {0,1,24,27,30,45,60} with real and imaginary "
+            "parts at different scales, plus magnitudes up to 3*2^125): a case is accepted only when for every output component the "
+            "products t_k of the four-product / textbook formula satisfy sum|t_k| < 2^(q+24) (q = least 2-adic valuation) and "
+            "sum|t_k| <= max float32, so every product and every partial sum in any order is a float32 number; then "
+            "complex_multiplication / complex_dot_product / complex_mm / complex_bmm / expand / reduce / conjugate / complex_division "
+            "(power-of-two divisors) / modulus (perfect squares) must return the exact result — oracle (own integer reference, key "
+            "native-mismatch:<helper>, op mixed-exact) and correspondence against the Lean model's exact arithmetic (buckets "
+            "mixed-magnitude/*). A formula that pre-adds real and imaginary parts (3-product Gauss / Karatsuba) fails these. Observation "
             "outside the quantifier: root_sum_of_squares decides `complex` by the LAST axis having length 2 whatever complex_dim says "
             "(modelled as coded, exercised by correspondence and oracle).",
     "technique": "Lean 4 proof (Mathlib complex numbers, finite sums, matrices; core-Lean index arithmetic for the tensor refinement) + AST "
@@ -67,7 +75,8 @@ TRUSTED = [
     "model tensor plumbing beyond what Lemmas/C02Tensor.lean proves (broadcasting of operands of unequal rank / with singleton axes "
     "other than the unsqueezed coil axis, sumAxes over >= 2 axes) and the driver's glue (parsing, axis range checks, error classes) "
     "— validated by correspondence, not proved",
-    "torch float32 / float64 arithmetic exact on small integers and dyadic rationals; torch.mm / torch.bmm = real matrix product",
+    "torch float32 / float64 arithmetic exact on small integers and dyadic rationals (incl. m*2^e probes whose products and partial "
+    "sums are representable); torch.mm / torch.bmm = real matrix product",
 ]
 ASSUMPTIONS = [
     "correspondence inputs are integer-valued float32 / float64 tensors (|v| <= 20) so every product / sum is exact; divisors are either "
@@ -77,6 +86,9 @@ ASSUMPTIONS = [
     "float range (overflow / underflow of squares) is outside the theorems; the oracle reports the deviations of the current tree "
     "as violations with keys float-range:<helper>:<class> and requires agreement with exact arithmetic (rel. 1e-3 of the complex "
     "magnitude) for operand scales 1e-18..1e18 (common scale) / 1e-9..1e9 (mixed scales)",
+    "mixed-magnitude exact probes: bit-exactness is demanded only where every term and every subset sum of the textbook formula's "
+    "products is float32-representable (decided in exact integer arithmetic per output component; other draws are rejected, not "
+    "loosened); torch.mm / bmm / sum may use any summation order or FMA under this criterion",
     "float16 / int64 arguments (outside the stated float32 quantifier) are exercised by the history oracle only: values must equal the "
     "native result on small integers, float dtypes must be preserved",
     "allocation histories (>= 20 fresh same-shape maps, each released before the next is drawn; torch.empty after del) rely on the CPU "
@@ -407,6 +419,16 @@ def correspondence(ctx: Ctx):
         (ca, ta), (cb, tb) = cview(a), cview(b)
         yield case(line("bmm", *G(a), *G(b)), lambda a=ca, b=cb: torch.view_as_real(T.complex_bmm(a, b)), (ca, cb),
                    m >= 2 and bb >= 2, "bmm" + ("/batch=1" if bb == 1 else ""), tags=(ta, tb))
+    # ---- mixed-magnitude exact cases (see _mix_case): every helper with a protocol op, against the model's exact arithmetic
+    for _ in range(30 * n):
+        spec = _mix_case(rng.randrange(2 ** 31))
+        if spec is None or spec["line"] is None:
+            continue
+        groups = []
+        for g in spec["line"][1:]:
+            groups += list(G(g)) if torch.is_tensor(g) else [g]
+        yield case(line(spec["line"][0], *groups), lambda spec=spec: _mix_run(T, spec), tuple(a for a in spec["args"] if torch.is_tensor(a)),
+                   True, "mixed-magnitude/" + spec["bucket"])
     # ---- expand / reduce with the coil axis at every position; sensitivity maps / operands with singleton (broadcast) axes
     for _ in range(14 * n):
         base = _cshape(rng)
@@ -1397,6 +1419,204 @@ def _safe_divide_case(T, seed):
     return bad, mode + "/" + special + ("/float64" if dt == torch.float64 else "")
 
 
+# --------------------------------------------------------------------------------------------------
+# mixed-magnitude exact probes.  Entries are m·2^e (m in -3..3, e from MIX_EXPS, real and imaginary parts at different
+# scales).  A case is accepted only when, for EVERY output component, the terms t_k of the textbook formula (the products
+# re·re, im·im, re·im, im·re that are summed into it) satisfy  Σ|t_k| < 2^(q+24)  with q the least 2-adic valuation of the
+# non-zero t_k, and Σ|t_k| <= max float32: then every product and every partial sum in any order / grouping is a float32
+# number, so the textbook float32 computation is exact and the exact complex result must come back bit for bit.
+MIX_EXPS = (0, 0, 1, 24, 27, 30, 45, 60)
+MIX_HELPERS = ("complex_multiplication", "complex_dot_product", "complex_mm", "complex_bmm", "expand_operator", "reduce_operator",
+               "conjugate", "complex_division", "modulus")
+_F32_MAX_INT = (1 << 128) - (1 << 104)
+
+
+def _mix_operand(r, shape, kind, e1, e2):
+    n = _prod(shape)
+    re, im = [], []
+    for _ in range(n):
+        m1, m2 = r.choice([0, 1, -1, 2, -2, 3, -3, 1, -3]), r.choice([0, 1, -1, 2, -2, 3, -3, 1, 3])
+        k = kind if kind != "pure" else r.choice(["real", "imag"])
+        if k == "real":
+            m2 = 0
+        elif k == "imag":
+            m1 = 0
+        re.append(m1 * (1 << e1))
+        im.append(m2 * (1 << e2))
+    O = lambda v: np.array(v, dtype=object).reshape(shape)  # noqa: E731
+    t = torch.tensor([[float(a), float(b)] for a, b in zip(re, im)], dtype=torch.float32).reshape(list(shape) + [2])
+    return t, O(re), O(im)
+
+
+def _mix_terms_mul(ar, ai, br, bi, conj_a=False):
+    """term arrays (new last axis) of a·b (or conj(a)·b) under numpy broadcasting -> (re terms, im terms)"""
+    if conj_a:
+        return np.stack(np.broadcast_arrays(ar * br, ai * bi), -1), np.stack(np.broadcast_arrays(ar * bi, -(ai * br)), -1)
+    return np.stack(np.broadcast_arrays(ar * br, -(ai * bi)), -1), np.stack(np.broadcast_arrays(ar * bi, ai * br), -1)
+
+
+def _mix_fold(terms, axis):
+    """move a summed axis into the term axis"""
+    t = np.moveaxis(terms, axis, -2)
+    return t.reshape(t.shape[:-2] + (t.shape[-2] * t.shape[-1],))
+
+
+def _mix_exact(terms):
+    """-> exact sums (object ints) when every component passes the exactness criterion, else None"""
+    flat = terms.reshape(-1, terms.shape[-1])
+    out = []
+    for row in flat:
+        nz = [abs(int(t)) for t in row if t]
+        tot = sum(nz)
+        if nz:
+            q = min((t & -t).bit_length() - 1 for t in nz)
+            if tot >= (1 << (q + 24)) or tot > _F32_MAX_INT:
+                return None
+        out.append(sum(int(t) for t in row))
+    return np.array(out, dtype=object).reshape(terms.shape[:-1])
+
+
+def _mix_case(seed):
+    """one accepted mixed-magnitude case derived from `seed` -> dict(helper, args, kw, line, expect (flat ints, interleaved
+    re/im), shape, bucket) — rejection sampling inside, deterministic"""
+    import random
+
+    r = random.Random(seed)
+    helper = MIX_HELPERS[seed % len(MIX_HELPERS)]
+    for attempt in range(60):
+        e1, e2 = r.choice(MIX_EXPS), r.choice(MIX_EXPS)
+        kb = r.choice(["real", "imag", "pure", "both"]) if attempt < 40 else "real"
+        f1, f2 = r.choice(MIX_EXPS), r.choice(MIX_EXPS)
+        if kb == "both" and r.random() < 0.7:
+            f2 = f1
+        huge = r.random() < 0.15
+        if huge:
+            e1 = e2 = r.choice([100, 120, 125])
+            f1 = f2 = 0
+        swap = r.random() < 0.5
+        dim = None
+        if helper in ("complex_multiplication", "conjugate", "modulus", "complex_division"):
+            sh = [r.randint(1, 3), r.randint(1, 3)]
+            a, ar, ai = _mix_operand(r, sh, "both", e1, e2)
+            if helper == "conjugate":
+                tre, tim, args, ln = np.stack([ar], -1), np.stack([-ai], -1), (a,), ("conj", a)
+            elif helper == "modulus":
+                if huge:
+                    continue
+                # perfect squares only: (3,4)·2^e, (m,0), (0,m)
+                tre, tim, args, ln = np.stack([ar * ar, ai * ai], -1), None, (a,), None
+            elif helper == "complex_division":
+                if huge:
+                    continue
+                b = torch.zeros(sh + [2])
+                br, bi = np.zeros(sh, dtype=object), np.zeros(sh, dtype=object)
+                for idx in itertools.product(*map(range, sh)):
+                    v = r.choice([1, -1]) * (1 << r.choice([0, 1, 2, 12, 24, 30]))
+                    if r.random() < 0.5:
+                        b[idx][0], br[idx] = float(v), v
+                    else:
+                        b[idx][1], bi[idx] = float(v), v
+                nre, nim = _mix_terms_mul(br, bi, ar, ai, conj_a=True)
+                den = br * br + bi * bi
+                xr, xi = _mix_exact(nre), _mix_exact(nim)
+                if xr is None or xi is None:
+                    continue
+                fr = [Fraction(int(v), int(d)) for pr in zip(zip(xr.reshape(-1), den.reshape(-1)), zip(xi.reshape(-1), den.reshape(-1))) for v, d in pr]
+                return {"helper": helper, "args": (a, b), "kw": {}, "line": ("cdiv", a, b), "expect": fr, "shape": sh + [2],
+                        "bucket": "cdiv/pow2-divisor"}
+            else:
+                sb = list(sh)
+                if r.random() < 0.3:
+                    sb[r.randrange(2)] = 1
+                b, br, bi = _mix_operand(r, sb, kb, f1, f2)
+                if swap:
+                    tre, tim = _mix_terms_mul(br, bi, ar, ai)
+                    args, ln = (b, a), ("cmul", b, a)
+                else:
+                    tre, tim = _mix_terms_mul(ar, ai, br, bi)
+                    args, ln = (a, b), ("cmul", a, b)
+        elif helper == "complex_dot_product":
+            sh = [r.randint(1, 3), r.randint(1, 3)]
+            dim = r.randrange(2)
+            a, ar, ai = _mix_operand(r, sh, "both", e1, e2)
+            b, br, bi = _mix_operand(r, sh, kb, f1, f2)
+            if swap:
+                a, ar, ai, b, br, bi = b, br, bi, a, ar, ai
+            tre, tim = _mix_terms_mul(ar, ai, br, bi, conj_a=True)
+            tre, tim = _mix_fold(tre, dim), _mix_fold(tim, dim)
+            args, ln = (a, b, [dim]), ("cdot", a, b, [dim])
+        elif helper in ("complex_mm", "complex_bmm"):
+            lead = [r.randint(1, 2)] if helper == "complex_bmm" else []
+            n_, m_, p_ = r.randint(1, 3), r.randint(1, 3), r.randint(1, 3)
+            a, ar, ai = _mix_operand(r, lead + [n_, m_], "both", e1, e2)
+            b, br, bi = _mix_operand(r, lead + [m_, p_], kb, f1, f2)
+            if swap:          # the mixed operand on the right
+                a, ar, ai = _mix_operand(r, lead + [n_, m_], kb, f1, f2)
+                b, br, bi = _mix_operand(r, lead + [m_, p_], "both", e1, e2)
+            tre, tim = _mix_terms_mul(ar[..., :, :, None], ai[..., :, :, None], br[..., None, :, :], bi[..., None, :, :])
+            tre, tim = _mix_fold(tre, len(lead) + 1), _mix_fold(tim, len(lead) + 1)
+            args, ln = (a, b), ("bmm" if lead else "mm", a, b)
+        else:                 # expand / reduce, coil axis 0 or 1
+            base = [r.randint(1, 2), r.randint(1, 3)]
+            dim = r.randrange(2)
+            c = r.randint(1, 3)
+            ss = base[:dim] + [c] + base[dim:]
+            S, Sr, Si = _mix_operand(r, ss, kb if not swap else "both", *((f1, f2) if not swap else (e1, e2)))
+            if helper == "expand_operator":
+                x, xr, xi = _mix_operand(r, base, "both" if not swap else kb, *((e1, e2) if not swap else (f1, f2)))
+                tre, tim = _mix_terms_mul(Sr, Si, np.expand_dims(xr, dim), np.expand_dims(xi, dim))
+                args, ln = (x, S), ("expand", x, S, [dim])
+            else:
+                y, yr, yi = _mix_operand(r, ss, "both" if not swap else kb, *((e1, e2) if not swap else (f1, f2)))
+                tre, tim = _mix_terms_mul(Sr, Si, yr, yi, conj_a=True)
+                tre, tim = _mix_fold(tre, dim), _mix_fold(tim, dim)
+                args, ln = (y, S), ("reduce", y, S, [dim])
+        xr = _mix_exact(tre)
+        xi = _mix_exact(tim) if tim is not None else None
+        if xr is None or (tim is not None and xi is None):
+            continue
+        if helper == "modulus":
+            roots = [math.isqrt(int(v)) for v in xr.reshape(-1)]
+            if any(q * q != int(v) or q >= (1 << 24) and (q & -q) * (1 << 24) <= q for q, v in zip(roots, xr.reshape(-1))):
+                continue
+            return {"helper": helper, "args": args, "kw": {}, "line": None, "expect": [Fraction(q) for q in roots], "shape": list(xr.shape),
+                    "bucket": "modulus/perfect-square"}
+        expect = [Fraction(int(v)) for pr in zip(xr.reshape(-1), xi.reshape(-1)) for v in pr]
+        return {"helper": helper, "args": args, "kw": {"dim": dim} if helper in ("expand_operator", "reduce_operator") else {},
+                "line": ln, "expect": expect, "shape": list(xr.shape) + [2],
+                "bucket": ln[0] + ("/huge" if huge else f"/second-operand-{kb}")}
+    return None
+
+
+def _mix_run(T, spec):
+    h, args = spec["helper"], spec["args"]
+    if h in ("complex_mm", "complex_bmm"):
+        return torch.view_as_real(getattr(T, h)(_c(args[0]), _c(args[1])))
+    return getattr(T, h)(*args, **spec["kw"])
+
+
+def _mix_check(T, seed):
+    """-> (failures [(key, what, observed)], bucket | None)"""
+    spec = _mix_case(seed)
+    if spec is None:
+        return [], None
+    h = spec["helper"]
+    try:
+        got = _mix_run(T, spec)
+        vals = got.reshape(-1).tolist()
+        ok = list(got.shape) == spec["shape"] and all(math.isfinite(v) for v in vals) and \
+            [Fraction(v) for v in vals] == spec["expect"]
+        obs = [float(v) for v in vals[:8]]
+    except Exception as e:  # noqa: BLE001
+        ok, obs = False, f"raises {err_name(e)}: {e}"[:160]
+    if ok:
+        return [], spec["bucket"]
+    exp = [float(v) for v in spec["expect"][:8]]
+    ins = " , ".join(str(a.reshape(-1).tolist()[:8]) for a in spec["args"] if torch.is_tensor(a))
+    return [(f"native-mismatch:{h}", f"{h} differs from exact complex arithmetic although every product and partial sum of the "
+             f"four-product formula is exactly representable in float32: got {obs}, exact {exp} (inputs {ins})", obs)], spec["bucket"]
+
+
 def _native_case(T, seed):
     """one random float case (everything derived from `seed`) -> (failures [(key, what, observed)], nontrivial, bucket)"""
     import random
@@ -1635,6 +1855,16 @@ def oracle(ctx: Ctx, deep: bool = False):
     #     `float-range:<helper>:<class>` (listed as known findings by the lead).
     #     (c) a sweep over all scales classifies every other deviation into the same classes (a class without a fixed probe
     #     would surface as its own `float-range:` key) and records the counts as a note. ------------------------------------
+    # (3a') mixed-magnitude exact probes for every helper (operands m·2^e with real / imaginary parts at different scales, and
+    #      large-but-safe magnitudes): the textbook float32 computation is exact there, so the result must be bit-exact
+    for _ in range(ctx.budget(270, 1800) * (3 if deep else 1)):
+        seed = rng.randrange(2 ** 31)
+        bad, bucket = _mix_check(T, seed)
+        if bucket is None:
+            continue
+        ctx.count(("mixed-exact", seed), True, bucket="oracle/mixed-magnitude-exact/" + bucket)
+        for key, what, obs in bad:
+            yield Violation(key, what, {"op": "mixed-exact", "seed": seed, "law": key, "observed": obs})
     for (helper, klass, a, b) in FLOAT_RANGE_PROBES:
         ctx.count(("float-range-probe", helper, klass), True, bucket="oracle/float-range/fixed-probe")
         got, exact, obs_class = _float_range_eval(T, helper, a, b)
@@ -1817,6 +2047,9 @@ def replay(rep: dict) -> bool:
             except ValueError:
                 return False
             return True
+        if op == "mixed-exact":
+            bad, _ = _mix_check(T, rep["seed"])
+            return any(k == rep["law"] for k, _, _ in bad)
         if op == "float-range":
             _, _, klass = _float_range_eval(T, rep["helper"], rep["a"], rep["b"])
             return klass is not None if rep.get("in_range") else klass == rep["class"]
